@@ -33,9 +33,9 @@
 #include <sys/syscall.h>
 
 enum { E_iEnter, E_iChkBegin, E_iChkSync, E_iChkEnd1, E_iChkEnd0, E_iSpin, E_iLock, E_iStepBegin,
-       E_iStepEnd, E_iUnlock, E_iEpiSync, E_iLeave, E_sLock, E_sSerBegin, E_sSerEnd, E_sUnlock, E_xStart, E_N };
+       E_iStepEnd, E_iUnlock, E_iEpiSync, E_iLeave, E_sLock, E_sSerBegin, E_sSerEnd, E_sUnlock, E_xStart, E_xStop, E_N };
 static const char* NAMES[E_N] = {"iEnter", "iChkBegin", "iChkSync", "iChkEnd1", "iChkEnd0", "iSpin", "iLock",
-    "iStepBegin", "iStepEnd", "iUnlock", "iEpiSync", "iLeave", "sLock", "sSerBegin", "sSerEnd", "sUnlock", "xStart"};
+    "iStepBegin", "iStepEnd", "iUnlock", "iEpiSync", "iLeave", "sLock", "sSerBegin", "sSerEnd", "sUnlock", "xStart", "xStop"};
 
 struct rec { unsigned char code; signed char nc; };
 
@@ -107,6 +107,7 @@ static int nc_now(void) { char* sd = cur_sd(); return sd ? *(volatile int*)(sd +
 static void append_raw(int code, int nc);
 static void append_locked(int code, int nc) {
     if (!g_up && code != E_xStart && cur_sd()) { g_up = 1; append_raw(E_xStart, -1); }
+    else if (g_up && code != E_xStop && !cur_sd()) { g_up = 0; append_raw(E_xStop, -1); }
     append_raw(code, nc);
 }
 static void append_raw(int code, int nc) {
@@ -246,6 +247,14 @@ void c19_mark(int code) {
     else { append(E_iLeave, -1); t_in_int = 0; }
 }
 void c19_stop(void) { g_active = 0; }
+/* look at r->server_data now (called by the driver right after start/stop_server so that no start or stop is missed) */
+void c19_poll(void) {
+    if (!g_active) return;
+    loglock();
+    if (!g_up && cur_sd()) { g_up = 1; append_raw(E_xStart, -1); }
+    else if (g_up && !cur_sd()) { g_up = 0; append_raw(E_xStop, -1); }
+    logunlock();
+}
 void c19_reset(void) { loglock(); g_n = 0; memset((void*)g_counts, 0, sizeof(g_counts)); g_late_spins = 0; g_foreign_ser = 0; logunlock(); }
 long c19_count(int code) { return code >= 0 && code < E_N ? g_counts[code] : (code == -1 ? g_late_spins : (code == -2 ? g_foreign_ser : g_double_close)); }
 long c19_len(void) { return (long)g_n; }
